@@ -170,6 +170,7 @@ type Refresh struct {
 type RefreshReq struct {
 	r      Refresh
 	scopes []string
+	alias  func([]string)
 }
 
 func (r *RefreshReq) GetAMR() []string                 { return r.r.AMR }
@@ -178,7 +179,14 @@ func (r *RefreshReq) GetAuthTime() time.Time           { return r.r.AuthTime }
 func (r *RefreshReq) GetClientID() string              { return r.r.ClientID }
 func (r *RefreshReq) GetScopes() []string              { return r.scopes }
 func (r *RefreshReq) GetSubject() string               { return r.r.Subject }
-func (r *RefreshReq) SetCurrentScopes(scopes []string) { r.scopes = scopes }
+func (r *RefreshReq) SetCurrentScopes(scopes []string) {
+	r.scopes = scopes
+	if r.alias != nil {
+		// AliasRefresh: like the repository's example storage, the request object IS the stored token, so
+		// narrowing the current scopes narrows (or, if the library calls it too early, widens) the stored grant.
+		r.alias(scopes)
+	}
+}
 func (r *RefreshReq) OriginalScopes() []string         { return r.r.Scopes }
 func (r *RefreshReq) RefreshTokenID() string           { return r.r.ID }
 
@@ -259,6 +267,9 @@ type Store struct {
 	HealthErr       error
 	KeySetErr       error
 	DupUserCodes    int // number of times StoreDeviceAuthorization answers ErrDuplicateUserCode first
+	// AliasRefresh makes RefreshTokenRequest.SetCurrentScopes write through to the stored refresh token (the
+	// example storage's request object aliases its stored token); off by default.
+	AliasRefresh bool
 }
 
 func New(signing *keys.Key) *Store {
@@ -818,7 +829,17 @@ func (s *Store) TokenRequestByRefreshToken(ctx context.Context, refreshToken str
 	c.Scopes = slices.Clone(r.Scopes)
 	c.Audience = slices.Clone(r.Audience)
 	c.AMR = slices.Clone(r.AMR)
-	return &RefreshReq{r: c, scopes: slices.Clone(r.Scopes)}, nil
+	rr := &RefreshReq{r: c, scopes: slices.Clone(r.Scopes)}
+	if s.AliasRefresh {
+		rr.alias = func(sc []string) {
+			s.mu.Lock()
+			if cur := s.refresh[refreshToken]; cur != nil {
+				cur.Scopes = slices.Clone(sc)
+			}
+			s.mu.Unlock()
+		}
+	}
+	return rr, nil
 }
 
 func (s *Store) terminate(userID, clientID string) {
@@ -1360,6 +1381,8 @@ func (s *Store) setUserinfoFromRequest(ctx context.Context, ui *oidc.UserInfo, r
 		return ferr
 	}
 	ui.AppendClaims("verif_from_request", true)
+	// like the example storage: the optional hook fills the user claims of the scopes it is handed
+	s.fillUser(ui, req.GetSubject(), scopes)
 	return nil
 }
 
